@@ -12,6 +12,7 @@ A contract is a class with optional members
     raises   : dict exception class name -> fn(s)   exceptional postconditions: `raise X` implies cond_X, and
                                                     a normal return implies (not cond_X) for every listed X
     may_raise: list of exception class names that may escape without a stated condition (callers fork on them)
+    raises_if: dict exception class name -> fn(s)   one-sided: `raise X` implies cond_X (s.exc = the exception object)
     modifies : list of field names of `self` that the function may assign (materialised self only)
 
 `s` is a namespace whose attributes are the parameters (s.self, s.divisor, ...), `s.result`, and - in the native
@@ -41,6 +42,11 @@ class Contract:
         self.may_raise: List[str] = list(getattr(impl, "may_raise", []) or [])
         # one-sided exceptional postconditions: `raise X` implies cond_X (nothing is said about normal returns)
         self.raises_only_if: Dict[str, Callable] = dict(getattr(impl, "raises_only_if", {}) or {})
+        # one-sided exceptional postconditions: `raise X` implies cond_X (nothing is claimed on a normal return)
+        self.raises_implies: Dict[str, Callable] = dict(getattr(impl, "raises_implies", {}) or {})
+        # one-sided exceptional postconditions: `raise X` implies cond_X(s) (s.exc is the exception); a normal return
+        # implies nothing about cond_X
+        self.raises_if: Dict[str, Callable] = dict(getattr(impl, "raises_if", {}) or {})
         self.modifies: List[str] = list(getattr(impl, "modifies", []) or [])
         self.establishes = getattr(impl, "establishes", None)  # for __init__: class whose spec is established
         self.self_kind = getattr(impl, "self_kind", None)
@@ -50,6 +56,16 @@ class Contract:
         self.hints = getattr(impl, "hints", None)
         self.self_classes = getattr(impl, "self_classes", None)
         self.pure = getattr(impl, "pure", False)
+        # functional contract: `value(s)` is a spec term that IS the result (used at call sites instead of a fresh
+        # constant constrained by the postcondition; needed where the result must stay a function of the arguments)
+        self.value = getattr(impl, "value", None)
+        # termination measure (tuple of terms, compared lexicographically) of a recursion group: at a call site inside a
+        # function under contract whose own contract has a measure, the callee's measure must be smaller
+        self.decreases = getattr(impl, "decreases", None)
+        # __init__ of a base class: invariant clauses (labels "<Class>.<clause>") that talk about the complete object and
+        # are therefore neither obligated here nor assumed at the call sites of this constructor (the constructor of the
+        # concrete class is obligated to them)
+        self.inv_exempt = list(getattr(impl, "inv_exempt", []) or [])
 
     def clauses(self, which: str, s) -> List[Tuple[str, Any]]:
         fn = getattr(self, which)
@@ -69,7 +85,16 @@ class ClassSpec:
         self.fields: Dict[str, Any] = dict(getattr(impl, "fields", {}) or {})
         self.invariant = getattr(impl, "invariant", None)
         self.mutable: List[str] = list(getattr(impl, "mutable", []) or [])
+        # labels of invariant clauses that speak about the completely constructed object (they are neither assumed nor
+        # obligated when a base-class __init__ runs on an object of a subclass that is still under construction)
+        self.whole_object: List[str] = list(getattr(impl, "whole_object", []) or [])
         self.props: Dict[str, Any] = dict(getattr(impl, "props", {}) or {})  # abstract property kinds (interfaces)
+        self.eq = getattr(impl, "eq", None)  # interface contract of `==` between instances: eq(a, b) -> clause
+        # a mutable builder-like class: fresh immutable objects handed to its methods are published (their fields become
+        # facts about the field functions of their reference) because they may be stored in its symbolic lists
+        self.owns_state: bool = bool(getattr(impl, "owns_state", False))
+        # the class invariant of a materialised receiver is obligated before / assumed after calls of its methods
+        self.invariant_at_calls: bool = bool(getattr(impl, "invariant_at_calls", False))
 
 
 class Registry:
